@@ -122,6 +122,15 @@ def impl_init():
                 ip.len = 0
             else:
                 ip.plen = 0
+        if (s["seq"] + s["win"] * 3 + s["ttl"]) % 11 == 4:
+            # the transport header is there only as undissected BYTES (IP(proto=6) / Raw(...), as a caller gets it from a raw socket or builds it from a
+            # capture's payload): pyp0f refuses it or reads it, and either way the caller's packet keeps its layers and its explicitly-set fields
+            body = bytes(tcp) + (bytes.fromhex(s["payload"]) if s["payload"] else b"")
+            if s["v"] == 4:
+                ip.proto = 6
+            else:
+                ip.nh = 6
+            return ip / Raw(load=body)
         p = ip / tcp
         if s["payload"]:
             p = p / Raw(load=bytes.fromhex(s["payload"]))
